@@ -634,6 +634,12 @@ pub fn evaluate(prop: &str, c: &Case, first: &MergeRun) -> Option<(String, Optio
                 let c = cls(&w);
                 return Some((w, c));
             }
+            if prop == "C14" {
+                // a failed merge leaves the destination without the source's newer versions and new nodes
+                let w = format!("merge of related replicas failed ({}): the destination does not carry the newest versions", k);
+                let c = cls(&w);
+                return Some((w, c));
+            }
             return None;
         }
         MergeRun::Ok(d1, _evs, _) => {
